@@ -34,6 +34,10 @@ pub struct VM {
     instructions: Vec<u8>,
     ip: usize,
     bp: u16,
+
+    /// Manages the memory of every object created while running (and of the constants).
+    /// It lives as long as the VM, because global variables can refer to objects of earlier runs.
+    gc: GC,
 }
 
 impl VM {
@@ -49,6 +53,7 @@ impl VM {
             instructions: Vec::new(),
             ip: 0,
             bp: 0,
+            gc: GC::new(),
         }
     }
 
@@ -178,6 +183,14 @@ impl VM {
 
     /// Executes the given Bytecode inside the context of this VM
     pub fn run(&mut self, code: Bytecode) -> Result<Object, Error> {
+        // the garbage collector is taken out of the VM for the duration of the run
+        let mut gc = std::mem::replace(&mut self.gc, GC::new());
+        let result = self.execute(code, &mut gc);
+        self.gc = gc;
+        result
+    }
+
+    fn execute(&mut self, code: Bytecode, gc: &mut GC) -> Result<Object, Error> {
         #[cfg(feature = "debug")]
         {
             println!("Bytecode (raw)= \n{:?}", &code.instructions);
@@ -204,9 +217,8 @@ impl VM {
         let constants = code.constants;
         let mut final_result = Object::null();
 
-        // Construct a new garbage collector
-        // And allow to manage memory for constants
-        let gc = &mut GC::new();
+        // Allow the garbage collector to manage memory for constants
+        // (the ones it does not know yet: a retained compiler hands over all of its constants again)
         for c in &constants {
             gc.maybe_trace(*c)
         }
